@@ -96,6 +96,9 @@ def _run(self):
     _talk(self)
     if self.beh == 'raise':
         raise ValueError(f'boom {self.label}')
+    faildir = os.environ.get('LV_FAILDIR')
+    if faildir and os.path.exists(os.path.join(faildir, f'fail_{self.label}')):
+        raise ValueError(f'boom (this run) {self.label}')
     if self.beh == 'die':
         os._exit(3)
     found = flat(self.deps)
@@ -192,7 +195,11 @@ TaBig = labtech.task(type('TaBig', (), {'__annotations__': {'label': int}, 'run'
 
 
 # ---- value-grammar universe (C07, C09, C15, C20): task types whose fields take arbitrary parameter trees
+VRUN_COUNT = [0]
+
+
 def _vrun(self):
+    VRUN_COUNT[0] += 1
     return ('V', type(self).__name__)
 
 
@@ -200,6 +207,7 @@ def make_vtype(name, fields, *, cache='default', module=__name__, post_init=Fals
     ns = {'__annotations__': {f: Any for f in fields}, 'run': _vrun, '__module__': module, '__qualname__': name}
     if ret is not None:
         def run(self) -> ret:
+            VRUN_COUNT[0] += 1
             return ('V', type(self).__name__)
         ns['run'] = run
     if post_init:
